@@ -955,6 +955,32 @@ func c14DeadWitness() *c14Gram {
 	return g
 }
 
+const c14AliasToken = "[C14-la-required-alias]"
+
+// c14AliasWitness: `%flag A = false; %lookahead flag L; %lookahead flag M;
+// N0: N2<+L> | 'c' N3<~M>; N2: [L] 'a' | 'b'; N3: [!L] 'a' | [M] 'b';` — N3 looks at L but never receives it.
+func c14AliasWitness() *c14Gram {
+	g := &c14Gram{NT: 4, Feat: map[string]bool{}}
+	g.Params = []c14Param{{Name: "A", Dflt: 0, Global: true}, {Name: "L", Dflt: -1, LA: true, Global: true}, {Name: "M", Dflt: -1, LA: true, Global: true}}
+	l := &c14Pred{Op: 'E', P: 1, V: 1}
+	g.NTs = []c14NT{
+		{Name: "N0", Alts: []c14Alt{
+			{RHS: []c14Sym{{NT: 2 - 1, Args: []c14Arg{{Param: 1, X: 1}}}}},
+			{RHS: []c14Sym{{Term: 3}, {NT: 2, Args: []c14Arg{{Param: 2, X: 0}}}}},
+		}},
+		{Name: "N2", Alts: []c14Alt{
+			{Pred: l, PredText: "L", RHS: []c14Sym{{Term: 1}}},
+			{RHS: []c14Sym{{Term: 2}}},
+		}},
+		{Name: "N3", Alts: []c14Alt{
+			{Pred: &c14Pred{Op: 'N', Sub: []*c14Pred{l}}, PredText: "!L", RHS: []c14Sym{{Term: 1}}},
+			{Pred: &c14Pred{Op: 'E', P: 2, V: 1}, PredText: "M", RHS: []c14Sym{{Term: 2}}},
+		}},
+	}
+	g.Inputs = []c14In{{NT: 0, Eoi: true}}
+	return g
+}
+
 func c14ParseProto(p string) (*Gram, bool) {
 	f := strings.Fields(p)
 	if len(f) != 6 {
@@ -1067,9 +1093,10 @@ func c14(c *Ctx) {
 		"or defaulted), lookahead arguments placed preferably where the flag can be used; a small fraction of deliberately invalid choices (undeclared parameter in a " +
 		"predicate, parametrized input, uninitialized parameter, unusable lookahead argument, nullable nonterminal on a lookahead path). Each grammar is compiled by the real " +
 		"compiler.Compile in a child process (answers ok+rules / err / fatal). (1) `inst`: status and instantiated rules vs the Lean mirror pipeline, up to nonterminal " +
-		"naming and block order. (2) for every ok grammar every terminal string up to length 5 (6 with two terminals) is tested: template semantics at the default valuation " +
+		"naming and block order, and the mirror's lookahead-propagation certificate (hypothesis of C14_propagate_args_sound_partial) must hold. (2) for every ok grammar every terminal string up to length 5 (6 with two terminals) is tested: template semantics at the default valuation " +
 		"(Go oracle c14Sem, also compared with the Lean executable semantics `sem`) vs Gram.Derives on the REAL rules. non-trivial = ok grammar with a predicate that is " +
-		"false for some reachable instance or a nonterminal instantiated at least twice; distinct by grammar text."
+		"false for some reachable instance or a nonterminal instantiated at least twice; distinct by grammar text. Mirrored quirk (finding " + c14AliasToken +
+		", fixed probe case): PropagateLookaheads' `never provided` check reads an aliased buffer, such grammars end in err/ok/log.Fatal exactly as the model predicts."
 
 	w := &c14Worker{}
 	defer w.stop()
@@ -1093,6 +1120,25 @@ func c14(c *Ctx) {
 			if findings {
 				c.Violate(c14DeadToken+" an instance without enabled alternatives derives the empty string: input N0: `b` is derivable in the instantiated rules but is NOT in the template language",
 					c14DeadToken+" "+c14OneLine(g.TM("c14probe"))+" :: b")
+			}
+		}
+	}
+
+	// probe for the requiredFlags aliasing defect of PropagateLookaheads (mirrored by the model, see
+	// Templates.lean requiredAliased): the grammar must be rejected with "lookahead flag L is never provided".
+	{
+		g := c14AliasWitness()
+		ans := w.call(g.TM("c14alias"))
+		defect := !strings.HasPrefix(ans, "err")
+		c.Extra["la_required_alias_probe_failed"] = defect
+		c.Case("inst "+g.Proto()+" :: "+map[bool]string{true: "fatal", false: "err"}[ans == "fatal"], "match", "")
+		if defect {
+			c.Notes = append(c.Notes, "probe FAILED on the real compiler: `"+c14OneLine(g.TM("c14alias"))+"` is answered `"+ans+"` instead of the error "+
+				"\"lookahead flag L is never provided\": PropagateLookaheads keeps every nonterminal's requiredFlags as a slice of ONE reuse buffer that later "+
+				"BitSet.Slice calls overwrite, so step 3 checks clobbered data; Instantiate then dies in log.Fatal(\"grammar inconsistency on TakeFrom\") "+c14AliasToken)
+			if findings {
+				c.Violate(c14AliasToken+" PropagateLookaheads misses `lookahead flag L is never provided` (requiredFlags aliases the reuse buffer); the compiler then exits in log.Fatal: answer `"+ans+"`",
+					c14AliasToken+" "+c14OneLine(g.TM("c14alias")))
 			}
 		}
 	}
